@@ -49,10 +49,14 @@ CLAIMED.update({
             "Residual assumptions: parametricity meta-argument; extraction rules R8-R12 (lambda lifting of the get_time closure, enumerate/zip loops desugared to while loops, three iterator expressions abstracted behind Kani-proved contracts, push arguments let-bound). unique/earliest/latest: bounded probe only. "),
 })
 
-BOUNDED_SEARCH = ("other", "BOUNDED stand-in, not a proof (the search function is outside Verus's subset). Thorough tier: Kani/CBMC on the REAL find_date_time with a recorder list, for every table of 1..=3 transitions with arbitrary i64 times / type indices / i32 offsets (no leap seconds, or <= 2 transitions with one leap-second record of either sign; trailing rule none or fixed) and every searched field tuple: result set sound and complete against the forward lookup, no duplicates, gap entries exactly at forward transitions with the right two types, ascending order; callees replaced by their Verus-proved contracts. Every tier: bounded concrete comparison of DateTime::find with an independent oracle of the result set through the public API (table zones with/without leap seconds and fixed rule; rule-only DST zones).", "S.6",
-            "Bounded: <= 3 transitions without / <= 2 transitions with one leap-second record, no DST rule in the symbolic part; the DST-rule branch and longer leap tables are only exercised by the bounded concrete probes. Open known findings F3 (C05: non-interleaving accepted rule yields a duplicate result) and F4 (C06: zero-length segment, e.g. permanent DST, reported as a gap) are carved out of the probes and replayed on every run. The quick tier runs the concrete probe and the structural check only (the Kani harnesses take 11, 21 and 27 minutes). Trusted: Kani 0.68 / CBMC 6.11, the stubs standing for Verus-proved contracts, the parametricity argument of C17. ",
-            "bounded model checking (Kani/CBMC) of the real search function with contract stubs + bounded concrete oracle comparison (stand-in for a contract proof)")
-CLAIMED.update({"C05": BOUNDED_SEARCH, "C06": BOUNDED_SEARCH})
+SEARCH_NOTE = ("Scope of the proof: zones without a DST rule. For zones with a DST (Alternate) rule only the list abstraction and the C14 invariant of find_date_time are proved; their results are decided by BOUNDED layers only (never counted as proved): thorough tier Kani/CBMC on the real find_date_time (<= 3 transitions without / <= 2 with one leap-second record; rule-only zone with six symbolic interleaving instants) and, every tier, a bounded concrete oracle comparison through the public API. Open known findings F3 (C05: non-interleaving accepted rule yields a duplicate result) and F4 (C06: zero-length segment, e.g. permanent DST, reported as a gap) - both in the DST-rule branch - are carved out of the probes and replayed on every run. "
+               "Trusted in addition: extraction rules R8-R12 (lambda lifting of the get_time closure, enumerate/zip loops desugared to while loops, three iterator expressions abstracted behind contracts proved by complete Kani harnesses, push arguments let-bound); Kani 0.68 / CBMC 6.11; the parametricity argument of C17 (the ghost log is the result list of both list types). ")
+SEARCH_TECH = "contract-based deductive verification (Verus/Z3) of the real find_date_time, extracted mechanically on every run (zones without DST rule); bounded model checking (Kani/CBMC) and bounded oracle comparison as stand-in for zones with a DST rule"
+CLAIMED.update({
+    "C05": ("proof", "PROOF for every zone without a DST rule (single type, table only, table + fixed rule, fixed rule only; any table length, any leap-second table, arbitrary offsets), for every searched date-time: the real find_date_time's pushed results are sound (each valid result carries the searched fields, the forward lookup - C03's relational spec - answers its type at its instant, instant + offset = searched civil time), free of duplicates, and complete whenever the search returns Ok (every instant whose lookup answer shows the searched time is reported). BOUNDED stand-in only for zones with a DST rule.", "S.13", SEARCH_NOTE, SEARCH_TECH),
+    "C06": ("proof", "PROOF for every zone without a DST rule, for every searched date-time: each skipped result of the real find_date_time is the gap of a real table transition (both date-times at the transition's UTC instant g(T), with the local time types before / after, C14 invariant, g(T)+a <= searched time < g(T)+b; the coverage-ending last transition of a rule-less zone opens no gap), every such gap is reported when the search returns Ok, and all results ascend by instant. Not proved: 'exactly once' and earliest/latest/unique themselves (bounded probe). BOUNDED stand-in only for zones with a DST rule.", "S.13", SEARCH_NOTE, SEARCH_TECH),
+})
+
 
 NA = {
     "C05": "find_date_time is outside Verus's subset (FnMut closure with captured cache, iterator adapters, impl Trait) and every bounded Kani formulation probed ran out of time/memory (DESIGN.md section 5 and 9); its ingredients are proved under C02/C03/C04/C12/C14",
